@@ -15,28 +15,48 @@ func init() {
 		Run: ruleAPIBoundary})
 }
 
-// isBoundaryFunc: contains a recover() and re-panics only what it does not understand (catchPanic by role).
+// deferredHandlers: the functions fn defers (function literals or named functions) that call recover() themselves
+// (recover only has an effect when the deferred function calls it directly).
+func deferredHandlers(fn *ssa.Function) []*ssa.Function {
+	var out []*ssa.Function
+	if fn == nil {
+		return nil
+	}
+	for _, b := range fn.Blocks {
+		for _, ins := range b.Instrs {
+			if d, ok := ins.(*ssa.Defer); ok {
+				if h := closureOf(&d.Call); h != nil && len(h.Blocks) > 0 && callsRecover(h) {
+					out = append(out, h)
+				}
+			}
+		}
+	}
+	return out
+}
+
+// deferrersOf: the functions that defer the recover handler h.
+func deferrersOf(c *Ctx, h *ssa.Function) []*ssa.Function {
+	if p := h.Parent(); p != nil {
+		return []*ssa.Function{p}
+	}
+	var out []*ssa.Function
+	for _, fn := range c.AllSrcFuncs("") {
+		for _, d := range deferredHandlers(fn) {
+			if d == h {
+				out = append(out, fn)
+			}
+		}
+	}
+	return out
+}
+
+// isBoundaryFunc: defers a recover() handler that re-panics only what it does not understand (catchPanic by role).
 func isBoundaryFunc(fn *ssa.Function) bool {
 	if fn == nil || fn.Blocks == nil {
 		return false
 	}
-	for _, an := range fn.AnonFuncs {
-		for _, b := range an.Blocks {
-			for _, ins := range b.Instrs {
-				if call, ok := ins.(*ssa.Call); ok {
-					if bi, ok := call.Call.Value.(*ssa.Builtin); ok && bi.Name() == "recover" {
-						// deferred in fn?
-						for _, fb := range fn.Blocks {
-							for _, fi := range fb.Instrs {
-								if d, ok := fi.(*ssa.Defer); ok && closureOf(&d.Call) == an {
-									return len(fn.Params) >= 1 && isFuncType(fn.Params[len(fn.Params)-1].Type()) && handlerAbsorbs(an)
-								}
-							}
-						}
-					}
-				}
-			}
-		}
+	for _, h := range deferredHandlers(fn) {
+		return len(fn.Params) >= 1 && isFuncType(fn.Params[len(fn.Params)-1].Type()) && handlerAbsorbs(h)
 	}
 	return false
 }
@@ -346,7 +366,7 @@ func ruleAPIBoundary(c *Ctx, r *R) {
 				if node := c.nodeAt(p.Pos()); node != nil {
 					ctx = c.panicContext(node, c.InfoFor(node))
 				}
-				if deadArmReason(ctx) != "" {
+				if deadArmReason(ctx) != "" || c.kindSwitchExhaustive(p) != "" || payloadExhausted(p) != "" {
 					ea.deadPanic[p] = true
 				}
 				if why, ok := panicForeignReviewed[ssaFuncName(fn)+"|"+tname+"|"+ctx]; ok && (strings.HasPrefix(why, "dead by") || strings.HasPrefix(why, "defensive") || strings.HasPrefix(why, "stasher protocol") || strings.HasPrefix(why, "operands are script-visible") || strings.HasPrefix(why, "both operands") || strings.HasPrefix(why, "kinds are equal") || strings.HasPrefix(why, "covers every kind") || strings.HasPrefix(why, "covers the three") || strings.HasPrefix(why, "array length is a data property")) {
@@ -487,20 +507,7 @@ func ruleAPIBoundary(c *Ctx, r *R) {
 		if !ea.boundary[fn] || !calledByRoot[fn] {
 			continue // only the boundary the public API relies on: a script-level try/catch that throws again is caught further out
 		}
-		for _, an := range fn.AnonFuncs {
-			recovers := false
-			for _, b := range an.Blocks {
-				for _, ins := range b.Instrs {
-					if call, ok := ins.(*ssa.Call); ok {
-						if bi, ok := call.Call.Value.(*ssa.Builtin); ok && bi.Name() == "recover" {
-							recovers = true
-						}
-					}
-				}
-			}
-			if !recovers {
-				continue
-			}
+		for _, an := range deferredHandlers(fn) {
 			ea.skipPanics = true
 			why := ea.ownReason(an)
 			ea.skipPanics = false
